@@ -32,6 +32,8 @@ use rsm_harness::{catch, silence_panics, Rng};
 
 #[path = "../c17_formats.rs"]
 mod formats;
+#[path = "../c17_deep.rs"]
+mod deep;
 
 // ------------------------------------------------------------------ helpers
 
@@ -69,6 +71,7 @@ fn err_class(e: &Error) -> u32 {
         ErrorCode::NoSpace => 3,
         ErrorCode::InvalidData => 4,
         ErrorCode::InvalidOpcode => 5,
+        ErrorCode::BufferTooSmall => 6,
         _ => 9,
     }
 }
@@ -385,6 +388,7 @@ fn run_line(line: &str, out: &mut String) {
                 Err(p) => writeln!(out, "T {} {} {} PANIC {}", id, fmt, mode, clean(&p)).unwrap(),
             }
         }
+        k if deep::KINDS.contains(&k) => deep::run_line(&f, out),
         _ => {}
     }
 }
@@ -806,6 +810,9 @@ fn gen_all(rng: &mut Rng, scale: usize) -> Gen {
         }
         g.push("SD", hex(&v));
     }
+
+    // ---- second batch of modelled formats (check-in, BDX, BLE advertisement, mDNS TXT)
+    deep::gen(rng, scale, &mut |k, rest| g.push(k, rest));
 
     // ---- formats without a model
     for (fmt, mode, arg) in formats::gen_t(rng, scale) {
